@@ -9,7 +9,7 @@ from . import progs as P
 # C11: nestings of {loop, while, for, block, if, match arm, match default, try, catch, call}
 #      around each of {break, continue, return, throw, fatal}, followed by further code
 # =============================================================================================
-CTX = ["loop", "while", "for", "block", "if", "arm", "dflt", "try", "catch", "call"]
+CTX = ["loop", "while", "for", "block", "if", "arm", "dflt", "try", "catch", "call", "lit"]
 EXITS = ["break", "continue", "return", "throw", "fatal", "none", "retthrow", "exprthrow"]
 LOOPS = ("loop", "while", "for")
 
@@ -20,7 +20,7 @@ def legal(ctxs, exit_):
         for c in reversed(ctxs):
             if c in LOOPS:
                 return True
-            if c == "call":
+            if c in ("call", "lit"):
                 return False
         return False
     return True
@@ -71,6 +71,13 @@ class NestGen:
             return [Print(S(tag + "-ret"), Call(name)), Print(S(tag + "-after"), V("lv"))]
         # every construct that opens a scope declares a local of the same name `lv`: once the construct has been left -
         # whichever way - the name means the enclosing level's variable again (a scope left behind would answer instead)
+        if c == "lit":
+            # a function literal made and called right here, inside whatever surrounds it (handlers, loops): its body is a
+            # function body of its own (it uses globals and its own locals only)
+            name = self.fresh("lit")
+            inner = self.wrap(ctxs, exit_, depth + 1, True)
+            lit = FnLit([], Block([Let("lv", I(10 + depth)), Print(S(tag + "-in"))] + inner + [Print(S(tag + "-lv"), V("lv"))], I(7)), "int")
+            return [Let(name, lit), Print(S(tag + "-ret"), CallV(V(name))), Print(S(tag + "-after"), V("lv"))]
         inner = [Let("lv", I(10 + depth)), Print(S(tag + "-in"))] + self.wrap(ctxs, exit_, depth + 1, in_fn) + [Print(S(tag + "-end"), V("lv"))]
         after = [Print(S(tag + "-after"), V("lv"))]
         if c == "block":
@@ -120,9 +127,9 @@ class NestGen:
             fns["boomn"] = Fn([], Block([Expr(Call("throw", S("boom")))]))
         fns["main"] = Fn([], Block(body))
         feats = {"family": "nest", "ctxs": "/".join(ctxs), "exit": exit_, "depth": len(ctxs),
-                 "throw_depth": sum(1 for c in ctxs[_first_try(ctxs):] if c == "call") if exit_ in ("throw", "retthrow", "exprthrow") else -1,
+                 "throw_depth": sum(1 for c in ctxs[_first_try(ctxs):] if c in ("call", "lit")) if exit_ in ("throw", "retthrow", "exprthrow") else -1,
                  "exit_inside_try": _inside(ctxs, "try"), "exit_inside_catch": _inside(ctxs, "catch"),
-                 "has_call": "call" in ctxs, "has_dflt": "dflt" in ctxs, "ending": ending}
+                 "has_call": "call" in ctxs or "lit" in ctxs, "has_dflt": "dflt" in ctxs, "ending": ending}
         return Program(self.pid, fns, globs=[("zero", I(0)), ("one", I(1)), ("yes", B(True))], feats=feats)
 
 
@@ -452,6 +459,18 @@ def template_programs():
         Print(Bin("+", Idx(V("l"), I(1)), Block([Expr(Asg(Idx(V("l"), I(1)), I(30)))], I(1))), V("l")),
         Let("o", Obj(v=I(1))), Print(Call("two", Mem(V("o"), "v"), Block([Expr(Asg(Mem(V("o"), "v"), I(9)))], I(3))), Mem(V("o"), "v")),
         Print(List(Idx(V("l"), I(0)), Block([Expr(Asg(Idx(V("l"), I(0)), I(0)))], I(5)), Idx(V("l"), I(0))))]))}, element_operand=True)
+    # a value taken out of an element or a field - into a variable, an option, a list, an object, an argument, a result -
+    # is a value: a later write to that element or field does not reach it
+    ident = Fn(["v"], Block([], V("v")), "int", ["int"])
+    first = Fn(["l"], Block([], Idx(V("l"), I(0))), "int", ["[int]"])
+    add("taken_from_element_then_written", {"ident": ident, "first": first, "main": Fn([], Block([
+        Let("xs", List(I(1), I(2))), Let("ob", Obj(count=I(7))),
+        Let("a", Idx(V("xs"), I(0))), Let("o", Un("?", Idx(V("xs"), I(0)))), Let("l", List(Idx(V("xs"), I(0)), Mem(V("ob"), "count"))),
+        Let("w", Obj(e=Idx(V("xs"), I(0)), f=Un("?", Mem(V("ob"), "count")))), Let("r", Call("ident", Idx(V("xs"), I(0)))), Let("g", Call("first", V("xs"))),
+        Let("ys", List(I(0))), Expr(MCall(V("ys"), "push", Idx(V("xs"), I(0)))), Let("before", Un("?", Mem(V("ob"), "count"))),
+        Expr(Asg(Idx(V("xs"), I(0)), I(42))), Expr(Asg(Mem(V("ob"), "count"), I(1), "+=")), Expr(Asg(Mem(V("ob"), "count"), I(2), "*=")),
+        Print(V("a"), MCall(V("o"), "unwrap"), V("l"), Mem(V("w"), "e"), MCall(Mem(V("w"), "f"), "unwrap"), V("r"), V("g"), V("ys"), MCall(V("before"), "unwrap")),
+        Print(V("xs"), Mem(V("ob"), "count"))]))})
     add("fn_values_displayed", {"step": step, "mk": Fn([], Block([], times10), "fn(n: int) -> int"),
         "main": Fn([], Block([Let("f", V("step")), Let("g", times10), Let("h", Call("mk")), Print(V("step"), V("f"), V("g"), V("h")),
                               Print(List(V("f"), V("g"))), Print(Obj(a=V("f"), b=V("h")))]))})
